@@ -14,7 +14,13 @@ func vKeyOn(label string) ([]byte, byte) {
 }
 
 // symbolic value: null, or a bulk of 0..2 arbitrary bytes (CR, LF included)
-func vValue(label string) []byte {
+func vValue(label string, reduced bool) []byte {
+	if reduced {
+		if verifrt.Choice(label+"_shape", 2) == 0 {
+			return []byte("$-1\r\n")
+		}
+		return bulk(verifrt.Bytes(label, 1))
+	}
 	switch verifrt.Choice(label+"_shape", 4) {
 	case 0:
 		return []byte("$-1\r\n")
@@ -53,7 +59,7 @@ func errReply(label string) []byte {
 
 // HarnessC07: a split MGET / DEL / MSET whose fragments are answered in a solver-chosen order.
 //   kind: 0 mget 1 del 2 mset ; k keys ; errs: 0 = no backend errors (C07), 1 = any fragment may be
-//   answered with an error (C11)
+//   answered with an error (C11), 2 = no errors, values null or one byte, replies in one read (longer key lists)
 func HarnessC07(kind, k, errs int) {
 	w, _ := verifWorld2(core.VerifDefaultOptions())
 	c := w.NewClient("10.0.0.1:5000")
@@ -110,7 +116,7 @@ func HarnessC07(kind, k, errs int) {
 						}
 					}
 					if v == nil {
-						v = vValue("v")
+						v = vValue("v", errs == 2)
 					}
 					fa.vals = append(fa.vals, v)
 					fa.answer = append(fa.answer, v...)
@@ -136,7 +142,10 @@ func HarnessC07(kind, k, errs int) {
 		}
 		fa := frags[oi]
 		// the reply may arrive in two reads
-		cut := verifrt.Choice("cut", 2)
+		cut := 0
+		if errs != 2 {
+			cut = verifrt.Choice("cut", 2)
+		}
 		if cut == 1 && len(fa.answer) > 3 {
 			w.Feed(fa.conn, fa.answer[:3])
 			w.Feed(fa.conn, fa.answer[3:])
